@@ -1095,7 +1095,10 @@ def param_rebind_rule(ctx: Ctx, functions, rule: str = "REBIND") -> int:
                     n += 1
                     if (q, x.id) in REBIND_ALLOWED:
                         continue
-                    pcs = path_conditions(st)
+                    pcs = []
+                    for c, holds in path_conditions(st):
+                        # a conjunction that holds makes each conjunct hold
+                        pcs.extend((v, True) for v in c.values) if holds and isinstance(c, ast.BoolOp) and isinstance(c.op, ast.And) else pcs.append((c, holds))
                     default_fill = isinstance(st, ast.Assign) and any(
                         holds and isinstance(c, ast.Compare) and len(c.ops) == 1 and isinstance(c.ops[0], (ast.Is, ast.Eq)) and isinstance(c.left, ast.Name)
                         and c.left.id == x.id and isinstance(c.comparators[0], ast.Constant) and c.comparators[0].value is None for c, holds in pcs)
